@@ -110,11 +110,11 @@ def run(ck, prog):
         "(this also shows no earlier arm shadows a later one for those inputs); (R14.4) the trivia "
         "predicates on TokenKind and SyntaxKind agree under From<TokenKind>; (R14.5) directive table. "
         "Scanner loops: (R14.6) every integer parse reachable from Lexer::number targets an unsigned 64-bit integer "
-        "unless it runs only for lexemes starting with `-`; (R14.7) the transition table of Lexer::string, read off its "
-        "MIR by evaluating one loop iteration for every (flag state, character class) pair, has the transitions the "
-        "reference requires for valid literals (escape of exactly the next character, the five escapes, closing quote); "
-        "(R14.8) Lexer::block_comment keeps a nesting depth whose transitions for every (depth 1..3, character, next "
-        "character) are the reference ones and the token ends exactly at depth 0; (R14.9) the scanner entered on a digit "
+        "unless it runs only for lexemes starting with `-`; (R14.7) Lexer::string, evaluated from its MIR (scanner API "
+        "modelled) on every character-class string of up to 5 characters, returns StrVal after exactly the characters of "
+        "every valid literal (a backslash escapes exactly the next character, one of the five reference escapes); "
+        "(R14.8) Lexer::block_comment, evaluated the same way on every string of up to 8 characters over {/, *, other}, "
+        "ends every terminated nested comment exactly where the reference does; (R14.9) the scanner entered on a digit "
         "can return Id. Not decided: code fragments, variable names, line comments, the exact regular language of "
         "numbers, maximal munch between token classes.")
     ck.trusted = ["rustc MIR construction and constant evaluation", "unscanny::Scanner API contract",
@@ -381,184 +381,122 @@ def find_method(prog, name):
     return None
 
 
+def _run_scanner(prog, body, text):
+    from .. import mirexec
+    model = mirexec.ScannerModel(text, extra={"Lexer::<'a>::error": lambda fr, args, t: ("variant", "Error", -1, [])})
+    fr = mirexec.Frame(body, model)
+    fr.locals[1] = ("self", ())
+    out = fr.run(0)
+    kind = out[1][1] if out[0] == "return" and out[1] and out[1][0] == "variant" else str(out)
+    return kind, model.pos
+
+
+def _all_strings(alphabet, maxlen):
+    level = [""]
+    for _ in range(maxlen):
+        level = [w + c for w in level for c in alphabet]
+        for w in level:
+            yield w
+
+
 def string_scanner(ck, prog):
-    """R14.7: transition table of Lexer::string, read off its MIR by evaluating one loop iteration for every (state of
-    the loop's flag locals, character class) pair, compared with the transitions the TableGen reference requires for
-    *valid* literals: a backslash escapes exactly the next character (one of \\ \' \" \t \n), an unescaped quote ends the
-    literal as StrVal, every other character continues. Transitions of invalid literals are not constrained."""
+    """R14.7: Lexer::string (entered after the opening quote), evaluated from its MIR on every string of up to 5
+    characters over {backslash, quote, apostrophe, n, other, newline} with the scanner API modelled (unscanny: trusted).
+    Whenever the TableGen reference says the characters begin a valid literal that ends after p characters (a backslash
+    escapes exactly the next character, which must be one of \\ \' \" \t \n), the scanner must return StrVal having
+    consumed exactly p characters. Strings the reference rejects are not constrained."""
     from .. import mirexec
     b = find_method(prog, "string")
     ck.anchor(b is not None, "Lexer::string not found")
-    eat_blocks = [i for i, t in b.calls() if (Body.callee(t) or "").endswith("Scanner::<'a>::eat")]
-    ck.anchor(len(eat_blocks) == 1, "Lexer::string no longer reads one character per loop iteration (Scanner::eat sites: %d)" % len(eat_blocks))
-    head = eat_blocks[0]
 
-    def oracle_for(ch):
-        fed = []
-
-        def oracle(fr, callee, args, t):
-            if callee.endswith("Scanner::<'a>::eat"):
-                if fed:
-                    raise mirexec.Unsupported("second character read in one iteration")
-                fed.append(1)
-                return ("none",) if ch is None else ("some", ("int", ord(ch)))
-            if callee.endswith("Lexer::<'a>::error"):
-                return ("variant", "Error", -1, [])
-            raise mirexec.Unsupported("call to %s" % callee)
-        return oracle
-
-    # state locals: locals assigned before the loop head and again inside the loop
-    def run_from(locals_in, ch):
-        fr = mirexec.Frame(b, oracle_for(ch))
-        fr.locals = dict(locals_in)
-        fr.locals[1] = ("self", ())
-        out = fr.run(head, stop_blocks=(head,))
-        return out, fr.locals
-
-    # initial state: run from the entry to the loop head
-    fr0 = mirexec.Frame(b, oracle_for(None))
-    fr0.locals[1] = ("self", ())
-    r0 = fr0.run(0, stop_blocks=(head,)) if head != 0 else ("at", head)
-    ck.anchor(r0[0] == "at", "Lexer::string does not reach its character loop")
-    init = {k: v for k, v in fr0.locals.items() if v is not None and v[0] == "int"}
-    # explore the reachable states
-    classes = [("backslash", "\\"), ("quote", '"'), ("apostrophe", "'"), ("t", "t"), ("n", "n"), ("other", "a"),
-               ("CR", "\r"), ("LF", "\n"), ("EOF", None)]
-    table = {}
-    states = [tuple(sorted(init.items()))]
-    seen = set(states)
-    while states:
-        st = states.pop()
-        for cname, ch in classes:
-            try:
-                out, loc = run_from(dict(st), ch)
-            except mirexec.Unsupported as e:
-                ck.anchor(False, "Lexer::string could not be evaluated (%s)" % e)
-            if out[0] == "at":
-                st2 = tuple(sorted((k, loc[k]) for k, _ in st))
-                table[(st, cname)] = ("continue", st2)
-                if st2 not in seen and len(seen) < 16:
-                    seen.add(st2)
-                    states.append(st2)
+    def ref(w):
+        i = 0
+        while i < len(w):
+            c = w[i]
+            if c == "\\":
+                if i + 1 >= len(w) or w[i + 1] not in "\\\"'nt":
+                    return None
+                i += 2
+            elif c == '"':
+                return i + 1
+            elif c in "\r\n":
+                return None
             else:
-                v = out[1]
-                table[(st, cname)] = ("end", v[1] if v and v[0] == "variant" else str(v))
-    ck.count(len(table))
-    s0 = tuple(sorted(init.items()))
-    # reference obligations for valid literals
-    def step(st, cname):
-        return table.get((st, cname))
-    # normal state: other chars stay, quote ends with StrVal
-    for cname in ("other", "t", "n", "apostrophe"):
-        r = step(s0, cname)
-        ck.ob("R14.7", "normal:%s" % cname, r == ("continue", s0), "outside an escape `%s` continues in the same state" % cname,
-              msg="Lexer::string: an ordinary character (%s) outside an escape does not leave the scanner in its initial state: %s" % (cname, r))
-    r = step(s0, "quote")
-    ck.ob("R14.7", "normal:quote", r == ("end", "StrVal"), "an unescaped quote ends the literal as StrVal",
-          msg="Lexer::string: an unescaped `\"` does not end the literal as StrVal: %s" % (r,))
-    r = step(s0, "backslash")
-    ok = r is not None and r[0] == "continue" and r[1] != s0
-    ck.ob("R14.7", "normal:backslash", ok, "a backslash enters the escape state",
-          msg="Lexer::string: a backslash does not start an escape: %s" % (r,))
-    if ok:
-        esc = r[1]
-        for cname in ("backslash", "quote", "apostrophe", "t", "n"):
-            r2 = step(esc, cname)
-            ck.ob("R14.7", "escape:%s" % cname, r2 == ("continue", s0),
-                  "the escape \\%s is consumed and the scanner is back in its initial state" % cname,
-                  msg="Lexer::string: after a backslash, `%s` (a valid escape) does not return the scanner to its initial state "
-                      "(%s): %s" % (cname, r2, {"backslash": 'a literal ending in an escaped backslash, "a\\\\", is not terminated by its closing quote',
-                                                "quote": "an escaped quote ends the literal"}.get(cname, "the escape is rejected or mis-scanned")))
-    ck.floor("R14.7", "string scanner transitions evaluated", len(table), 18)
+                i += 1
+        return None
+    n = 0
+    bad = {}
+    for w in _all_strings(["\\", '"', "'", "n", "a", "\n"], 5):
+        p = ref(w)
+        if p is None:
+            continue
+        n += 1
+        try:
+            kind, pos = _run_scanner(prog, b, w)
+        except mirexec.Unsupported as e:
+            ck.anchor(False, "Lexer::string could not be evaluated (%s)" % e)
+        if kind != "StrVal" or pos != p:
+            sig = (kind, pos - p)
+            if sig not in bad or len(w) < len(bad[sig][0]):
+                bad[sig] = (w, p, kind, pos)
+    ck.count(n)
+    for sig, (w, p, kind, pos) in sorted(bad.items(), key=str):
+        lit = '"' + w.replace("\n", "\\n")
+        ck.ob("R14.7", "string:%s" % lit, False,
+              msg="Lexer::string on the characters %s (after the opening quote): the literal ends after %d characters, the scanner "
+                  "returns %s after %d (escapes: a backslash escapes exactly the next character, one of \\\\ \\' \\\" \\t \\n)"
+                  % (lit, p, kind, pos))
+    ck.ob("R14.7", "string:all-valid-literals", not bad, "%d valid literal bodies of up to 5 characters end where the reference says, as StrVal" % n,
+          msg="Lexer::string disagrees with the reference on %d classes of valid literals" % len(bad))
+    ck.floor("R14.7", "valid string bodies evaluated", n, 1000)
 
 
 def comment_scanner(ck, prog):
-    """R14.8: block comments nest. Lexer::block_comment must keep a nesting depth: its per-iteration transition table
-    (state = the integer locals of the loop, input = the character read and the character after it) is read off the
-    MIR and compared with: `*` `/` closes one level, `/` `*` opens one, anything else keeps the depth; the comment token
-    ends exactly when the depth returns to zero. A scanner that searches for the first terminator cannot nest."""
+    """R14.8: Lexer::block_comment (entered after the opening `/*`), evaluated from its MIR on every string of up to 8
+    characters over {/, *, other}: whenever the comment, with nesting, ends after p characters, the scanner must return
+    BlockComment having consumed exactly p characters. Unterminated comments are not constrained."""
     from .. import mirexec
     b = find_method(prog, "block_comment")
     ck.anchor(b is not None, "Lexer::block_comment not found")
-    calls = [(i, Body.callee(t) or "", t) for i, t in b.calls()]
-    until = [c for _, c, _ in calls if c.endswith("::eat_until")]
-    eats = [i for i, c, _ in calls if c.endswith("Scanner::<'a>::eat")]
-    if until and not eats:
-        ck.ob("R14.8", "nesting", False,
-              msg="Lexer::block_comment skips to the first terminator (Scanner::eat_until) and keeps no nesting depth: in "
-                  "`/* a /* b */ c */` the comment ends at the first `*/` and ` c */` is lexed as tokens")
-        return
-    ck.anchor(len(eats) == 1, "Lexer::block_comment: cannot find its one-character-per-iteration loop")
-    head = eats[0]
 
-    def run_iter(locals_in, c1, c2):
-        consumed = [0]
-
-        def oracle(fr, callee, args, t):
-            if callee.endswith("Scanner::<'a>::eat"):
-                if consumed[0]:
-                    raise mirexec.Unsupported("second eat() in one iteration")
-                consumed[0] = 1
-                return ("none",) if c1 is None else ("some", ("int", ord(c1)))
-            if callee.endswith("::eat_if"):
-                pat = args[1] if len(args) > 1 else None
-                if pat is None or pat[0] != "int" or consumed[0] != 1:
-                    raise mirexec.Unsupported("eat_if with a non-character pattern")
-                hit = c2 is not None and ord(c2) == pat[1]
-                if hit:
-                    consumed[0] = 2
-                return ("int", 1 if hit else 0)
-            raise mirexec.Unsupported("call to %s" % callee)
-        fr = mirexec.Frame(b, oracle)
-        fr.locals = dict(locals_in)
-        fr.locals[1] = ("self", ())
-        out = fr.run(head, stop_blocks=(head,))
-        return out, fr.locals, consumed[0]
-
-    fr0 = mirexec.Frame(b, lambda *a: (_ for _ in ()).throw(mirexec.Unsupported("call before the loop")))
-    fr0.locals[1] = ("self", ())
-    try:
-        r0 = fr0.run(0, stop_blocks=(head,))
-    except mirexec.Unsupported as e:
-        ck.anchor(False, "Lexer::block_comment could not be evaluated (%s)" % e)
-    ck.anchor(r0[0] == "at", "Lexer::block_comment does not reach its loop")
-    named = {i for i, l in enumerate(b.raw.get("locals", [])) if l.get("n") and l.get("n") != "self"}
-    ints = {k: v for k, v in fr0.locals.items() if v is not None and v[0] == "int" and k in named}
-    ck.anchor(len(ints) == 1, "Lexer::block_comment: expected exactly one integer state variable (the nesting depth), found %d" % len(ints))
-    dl = list(ints)[0]
-    d0 = ints[dl][1]
-    ck.ob("R14.8", "initial-depth", d0 == 1, "the depth starts at 1 after the opening `/*`",
-          msg="Lexer::block_comment starts with nesting depth %d" % d0)
+    def ref(w):
+        depth, i = 1, 0
+        while i < len(w):
+            if w[i:i + 2] == "*/":
+                depth -= 1
+                i += 2
+                if depth == 0:
+                    return i
+            elif w[i:i + 2] == "/*":
+                depth += 1
+                i += 2
+            else:
+                i += 1
+        return None
     n = 0
-    for d in (1, 2, 3):
-        for c1 in ("*", "/", "a", None):
-            for c2 in ("*", "/", "a", None):
-                try:
-                    out, loc, used = run_iter({dl: ("int", d)}, c1, c2)
-                except mirexec.Unsupported as e:
-                    ck.anchor(False, "Lexer::block_comment could not be evaluated (%s)" % e)
-                n += 1
-                if c1 is None:
-                    ok = out[0] == "return"
-                    want = "the scanner stops at the end of input"
-                else:
-                    if (c1, c2) == ("*", "/"):
-                        nd, nu = d - 1, 2
-                    elif (c1, c2) == ("/", "*"):
-                        nd, nu = d + 1, 2
-                    else:
-                        nd, nu = d, 1
-                    if nd == 0:
-                        ok = out[0] == "return" and used == nu and out[1] and out[1][0] == "variant" and out[1][1] == "BlockComment"
-                        want = "the comment ends here as BlockComment after %d characters" % nu
-                    else:
-                        ok = out[0] == "at" and used == nu and loc.get(dl) == ("int", nd)
-                        want = "depth %d -> %d, %d characters consumed" % (d, nd, nu)
-                ck.ob("R14.8", "step:d%d:%s%s" % (d, c1 or "EOF", c2 or "EOF"), ok, want,
-                      msg="Lexer::block_comment at nesting depth %d reading `%s` followed by `%s`: expected %s, the scanner does %s/%s "
-                          "consuming %d" % (d, c1, c2, want, out[0], loc.get(dl), used))
+    bad = {}
+    for w in _all_strings(["/", "*", "a"], 8):
+        p = ref(w)
+        if p is None or p != len(w):
+            continue            # evaluate each terminated comment once, with nothing after it ...
+        for tail in ("", "a", "*/"):        # ... and with text after it that must stay untouched
+            n += 1
+            try:
+                kind, pos = _run_scanner(prog, b, w + tail)
+            except mirexec.Unsupported as e:
+                ck.anchor(False, "Lexer::block_comment could not be evaluated (%s)" % e)
+            if kind != "BlockComment" or pos != p:
+                sig = (kind, (pos > p) - (pos < p))
+                if sig not in bad or len(w + tail) < len(bad[sig][0]):
+                    bad[sig] = (w + tail, p, kind, pos)
     ck.count(n)
-    ck.floor("R14.8", "comment scanner transitions evaluated", n, 48)
+    for sig, (w, p, kind, pos) in sorted(bad.items(), key=str):
+        ck.ob("R14.8", "comment:/*%s" % w, False,
+              msg="Lexer::block_comment on `/*%s`: with nesting the comment ends after %d characters (after the opener), the scanner "
+                  "returns %s after %d" % (w, p, kind, pos))
+    ck.ob("R14.8", "comment:all-terminated", not bad, "%d terminated (nested) comments end where the reference says" % n,
+          msg="Lexer::block_comment disagrees with the nested-comment reference on %d classes of comments" % len(bad))
+    ck.floor("R14.8", "terminated comment bodies evaluated", n, 1000)
 
 
 def token_to_syntax(prog, fb):
